@@ -109,9 +109,11 @@ def walk_back(v, follow=("bitcast", "zext", "sext", "trunc", "phi", "select", "p
     return out
 
 
-def backward_slice(v, limit=2000, through_loads=False):
+def backward_slice(v, limit=2000, through_loads=False, phi_control=True):
     """all values v depends on via SSA operands (not through memory unless
-    through_loads, in which case a load continues at its pointer operand)"""
+    through_loads, in which case a load continues at its pointer operand).
+    phi_control: a phi also depends on the branch conditions that select its
+    incoming edge (how `a && b` looks after mem2reg)"""
     seen, out, stack = set(), [], [v]
     while stack and len(seen) < limit:
         x = stack.pop()
@@ -123,6 +125,10 @@ def backward_slice(v, limit=2000, through_loads=False):
             if x.op == "load" and not through_loads:
                 continue
             stack.extend(x.ops)
+            if x.op == "phi" and phi_control:
+                for pb in x.x.get("inc", []):
+                    if pb.insts and pb.term.op in ("br", "switch") and pb.term.ops:
+                        stack.append(pb.term.ops[0])
             for el in x.x.get("gep") or []:
                 if el[0] in ("*", "[]"):
                     stack.append(el[1])
